@@ -33,7 +33,8 @@ def ansatz_catalogue(tier: str):
         for d in (1, 2):
             for pi in (False, True):
                 out.append((f"GateFabric({n},{d},{pi})", lambda n=n, d=d, pi=pi: GateFabric(n, d, pi), {"N", "Sz"}))
-    for n, f in ((4, 2), (6, 2)) + (((6, 4), (8, 2)) if big else ()):
+    # closed- and open-shell electron counts (odd counts shift the parity of the first virtual spin orbital)
+    for n, f in ((4, 2), (6, 2), (4, 1), (6, 3)) + (((6, 4), (8, 2), (4, 3), (6, 1), (6, 5), (8, 3)) if big else ()):
         out.append((f"AllSinglesDoubles({n},{f})", lambda n=n, f=f: AllSinglesDoubles(n, f), {"N", "Sz"}))
     # the anchored gadgets themselves ("particle-conserving … excitation circuit", "orbital rotation gate … conserves the
     # number of particles"), driven through every form of ParameterOrLinearFunction their signature admits – the ansatz
@@ -61,8 +62,8 @@ def ansatz_catalogue(tier: str):
     try:
         from quri_parts.openfermion.ansatz import KUpCCGSD, TrotterUCCSD
 
-        for n, e in ((4, 2), (6, 2)) + (((6, 4), (8, 4)) if big else ()):
-            for sing in (False, True):
+        for n, e in ((4, 2), (6, 2), (4, 1), (6, 3)) + (((6, 4), (8, 4), (4, 3), (6, 1), (6, 5)) if big else ()):
+            for sing in ((False, True) if e % 2 == 0 else (False,)):  # singlet excitations are refused for odd electron counts
                 out.append((f"TrotterUCCSD({n},{e},singlet={sing})",
                             lambda n=n, e=e, s=sing: TrotterUCCSD(n, e, singlet_excitation=s), {"N", "Sz"}))
         for n in (4, 6):
